@@ -1,0 +1,328 @@
+//! Verification hooks (compiled only with `--cfg bladeink_verif`).
+//!
+//! Nothing in here is reachable in a normal build.  The hooks give an external
+//! harness (1) a fixed story seed, (2) a virtual clock for `continue_async`
+//! and a step budget so a runaway story ends with an error instead of hanging,
+//! and (3) an audit listing of the content tree.
+use std::{
+    cell::{Cell, RefCell},
+    collections::hash_map::DefaultHasher,
+    hash::{Hash, Hasher},
+    rc::Rc,
+};
+
+use crate::{
+    choice_point::ChoicePoint,
+    container::Container,
+    control_command::ControlCommand,
+    divert::Divert,
+    glue::Glue,
+    native_function_call::NativeFunctionCall,
+    object::{Object, RTObject},
+    path::Path,
+    story::Story,
+    tag::Tag,
+    value::Value,
+    value_type::ValueType,
+    variable_assigment::VariableAssignment,
+    variable_reference::VariableReference,
+    void::Void,
+};
+
+thread_local! {
+    static FORCED_SEED: Cell<Option<i32>> = const { Cell::new(None) };
+    static FUEL: Cell<Option<u64>> = const { Cell::new(None) };
+    static PAUSES: RefCell<Vec<u32>> = const { RefCell::new(Vec::new()) };
+    static PAUSE_LEFT: Cell<u32> = const { Cell::new(0) };
+    static STEPS: Cell<u64> = const { Cell::new(0) };
+}
+
+/// Every `StoryState` created from now on (construction, reset) uses this seed.
+pub fn set_forced_seed(seed: Option<i32>) {
+    FORCED_SEED.with(|s| s.set(seed));
+}
+
+pub(crate) fn forced_seed() -> Option<i32> {
+    FORCED_SEED.with(|s| s.get())
+}
+
+/// Total number of interpreter steps still allowed on this thread (None = unlimited).
+pub fn set_fuel(fuel: Option<u64>) {
+    FUEL.with(|f| f.set(fuel));
+}
+
+pub fn fuel_left() -> Option<u64> {
+    FUEL.with(|f| f.get())
+}
+
+/// Number of interpreter steps executed on this thread since the last call to
+/// `reset_step_count`.
+pub fn step_count() -> u64 {
+    STEPS.with(|s| s.get())
+}
+
+pub fn reset_step_count() {
+    STEPS.with(|s| s.set(0));
+}
+
+/// Consume one unit of fuel; `false` when none is left.
+pub(crate) fn take_fuel() -> bool {
+    STEPS.with(|s| s.set(s.get() + 1));
+    FUEL.with(|f| match f.get() {
+        None => true,
+        Some(0) => false,
+        Some(n) => {
+            f.set(Some(n - 1));
+            true
+        }
+    })
+}
+
+/// Virtual clock for `continue_async`: pause after `schedule[0]` single steps,
+/// then after `schedule[1]` more, ...; an exhausted schedule never pauses.
+pub fn set_pause_schedule(schedule: &[u32]) {
+    PAUSES.with(|p| {
+        let mut p = p.borrow_mut();
+        p.clear();
+        p.extend(schedule.iter().rev());
+    });
+    PAUSE_LEFT.with(|l| l.set(0));
+    next_pause();
+}
+
+fn next_pause() {
+    let n = PAUSES.with(|p| p.borrow_mut().pop());
+    PAUSE_LEFT.with(|l| l.set(n.unwrap_or(0)));
+}
+
+/// Called once per `continue_single_step` of a time-limited continue; `true`
+/// means "the time limit has elapsed".
+pub(crate) fn clock_tick() -> bool {
+    let left = PAUSE_LEFT.with(|l| l.get());
+    if left == 0 {
+        return false;
+    }
+    if left == 1 {
+        next_pause();
+        return true;
+    }
+    PAUSE_LEFT.with(|l| l.set(left - 1));
+    false
+}
+
+fn hash_of(p: &Path) -> u64 {
+    let mut h = DefaultHasher::new();
+    p.hash(&mut h);
+    h.finish()
+}
+
+fn kind_of(o: &dyn RTObject) -> String {
+    let any = o.as_any();
+    if let Some(c) = any.downcast_ref::<Container>() {
+        return format!(
+            "container name={:?} flags={} n={} named={}",
+            c.name,
+            c.get_count_flags(),
+            c.content.len(),
+            {
+                let mut k: Vec<&String> = c.named_content.keys().collect();
+                k.sort();
+                format!("{:?}", k)
+            }
+        );
+    }
+    if let Some(v) = any.downcast_ref::<Value>() {
+        return match &v.value {
+            ValueType::Bool(b) => format!("bool {}", b),
+            ValueType::Int(i) => format!("int {}", i),
+            ValueType::Float(f) => format!("float {:08x}", f.to_bits()),
+            ValueType::String(s) => format!("str {:?}", s.string),
+            ValueType::DivertTarget(p) => format!("divtarget {:?}", p.to_string()),
+            ValueType::VariablePointer(p) => {
+                format!("varptr {:?} {}", p.variable_name, p.context_index)
+            }
+            ValueType::List(l) => {
+                let mut items: Vec<String> = l
+                    .items
+                    .iter()
+                    .map(|(k, v)| format!("{}={}", k.get_full_name(), v))
+                    .collect();
+                items.sort();
+                let mut names = l.get_origin_names();
+                names.sort();
+                names.dedup();
+                format!("list {:?} origins={:?}", items, names)
+            }
+        };
+    }
+    if let Some(d) = any.downcast_ref::<Divert>() {
+        return format!(
+            "divert var={:?} pushes={} type={:?} ext={} args={} cond={}",
+            d.variable_divert_name,
+            d.pushes_to_stack,
+            d.stack_push_type,
+            d.is_external,
+            d.external_args,
+            d.is_conditional
+        );
+    }
+    if let Some(c) = any.downcast_ref::<ChoicePoint>() {
+        return format!("choicepoint flags={}", c.get_flags());
+    }
+    if let Some(c) = any.downcast_ref::<ControlCommand>() {
+        return format!("cmd {}", ControlCommand::get_name(c.command_type));
+    }
+    if let Some(n) = any.downcast_ref::<NativeFunctionCall>() {
+        return format!("native {}", NativeFunctionCall::get_name(n.op));
+    }
+    if let Some(v) = any.downcast_ref::<VariableReference>() {
+        return format!(
+            "varref name={:?} count={:?}",
+            v.name,
+            v.path_for_count.as_ref().map(|p| p.to_string())
+        );
+    }
+    if let Some(v) = any.downcast_ref::<VariableAssignment>() {
+        return format!(
+            "varass {:?} new={} global={}",
+            v.variable_name, v.is_new_declaration, v.is_global
+        );
+    }
+    if let Some(t) = any.downcast_ref::<Tag>() {
+        return format!("tag {:?}", t.get_text());
+    }
+    if any.is::<Glue>() {
+        return "glue".to_owned();
+    }
+    if any.is::<Void>() {
+        return "void".to_owned();
+    }
+    "other".to_owned()
+}
+
+fn same_object(a: &Rc<dyn RTObject>, b: &Rc<dyn RTObject>) -> bool {
+    let pa = a.as_ref() as *const _ as *const ();
+    let pb = b.as_ref() as *const _ as *const ();
+    std::ptr::eq(pa, pb)
+}
+
+/// One line per object, in tree order (content first, then named-only content
+/// sorted by name):
+/// `<path>\t<kind>\tresolves=<same|other|none> approx=<bool> reparse_eq=<bool>
+///  reparse_rel=<bool> hash_eq=<bool>[\ttarget=<string> target_resolves=<path|none> approx=<bool>]`
+fn audit_object(root: &Rc<Container>, o: &Rc<dyn RTObject>, out: &mut Vec<String>) {
+    let p = Object::get_path(o.as_ref());
+    let s = p.to_string();
+    let found = root.content_at_path(&p, 0, -1);
+    let resolves = if same_object(&found.obj, o) {
+        "same"
+    } else {
+        "other"
+    };
+    let reparsed = Path::new_with_components_string(Some(&s));
+    let mut line = format!(
+        "{}\t{}\tresolves={} approx={} reparse_eq={} reparse_rel={} hash_eq={}",
+        s,
+        kind_of(o.as_ref()),
+        resolves,
+        found.approximate,
+        reparsed == p,
+        reparsed.is_relative(),
+        hash_of(&reparsed) == hash_of(&p)
+    );
+
+    // references held by this object
+    let mut target: Option<Path> = None;
+    if let Ok(d) = o.clone().into_any().downcast::<Divert>() {
+        if !d.has_variable_target() && !d.is_external {
+            target = d.get_target_path();
+            line.push_str(&format!(
+                "\ttarget={:?}",
+                d.get_target_path_string().unwrap_or_default()
+            ));
+        }
+    } else if let Ok(c) = o.clone().into_any().downcast::<ChoicePoint>() {
+        target = Some(c.get_path_on_choice());
+        line.push_str(&format!("\ttarget={:?}", c.get_path_string_on_choice()));
+    } else if let Ok(v) = o.clone().into_any().downcast::<VariableReference>()
+        && v.path_for_count.is_some()
+    {
+        target = v.path_for_count.clone();
+        line.push_str(&format!(
+            "\ttarget={:?}",
+            v.get_path_string_for_count().unwrap_or_default()
+        ));
+    }
+    if let Some(t) = target {
+        let r = Object::resolve_path(o.clone(), &t);
+        line.push_str(&format!(
+            " target_resolves={:?} approx={}",
+            Object::get_path(r.obj.as_ref()).to_string(),
+            r.approximate
+        ));
+    }
+    out.push(line);
+
+    if let Ok(c) = o.clone().into_any().downcast::<Container>() {
+        for child in c.content.iter() {
+            audit_object(root, child, out);
+        }
+        let named_only = c.get_named_only_content();
+        let mut keys: Vec<&String> = named_only.keys().collect();
+        keys.sort();
+        for k in keys {
+            let child: Rc<dyn RTObject> = named_only.get(k).unwrap().clone();
+            audit_object(root, &child, out);
+        }
+    }
+}
+
+impl Story {
+    /// Audit listing of the whole content tree (see `audit_object`).
+    pub fn verif_content_audit(&self) -> Vec<String> {
+        let root = self.get_main_content_container();
+        let mut out = Vec::new();
+        let o: Rc<dyn RTObject> = root.clone();
+        audit_object(&root, &o, &mut out);
+        out
+    }
+
+    /// Set the seed of the *current* state (the forced seed covers new states).
+    pub fn verif_set_seed(&mut self, seed: i32) {
+        self.get_state_mut().story_seed = seed;
+    }
+
+    pub fn verif_is_async_active(&self) -> bool {
+        self.verif_async_active()
+    }
+}
+
+/// Path text helpers for the path correspondence check.
+pub fn verif_path_roundtrip(s: &str) -> (String, bool, usize, String) {
+    let p = Path::new_with_components_string(Some(s));
+    let comps: Vec<String> = (0..p.len())
+        .map(|i| {
+            let c = p.get_component(i).unwrap();
+            if c.is_index() {
+                format!("i{}", c.index.unwrap())
+            } else {
+                format!("n{}", c.name.as_ref().unwrap())
+            }
+        })
+        .collect();
+    (p.to_string(), p.is_relative(), p.len(), comps.join("|"))
+}
+
+/// (a == b, hash(a) == hash(b)) for two path strings.
+pub fn verif_path_eq_hash(a: &str, b: &str) -> (bool, bool) {
+    let pa = Path::new_with_components_string(Some(a));
+    let pb = Path::new_with_components_string(Some(b));
+    (pa == pb, hash_of(&pa) == hash_of(&pb))
+}
+
+/// `base.path_by_appending_path(rel)` as text (may panic: usize underflow).
+pub fn verif_path_append(base: &str, rel: &str) -> String {
+    let pa = Path::new_with_components_string(Some(base));
+    let pb = Path::new_with_components_string(Some(rel));
+    pa.path_by_appending_path(&pb).to_string()
+}
